@@ -1,6 +1,7 @@
 package sizes
 
 import (
+	"encoding/json"
 	"strings"
 
 	"github.com/github/git-sizer/counts"
@@ -131,13 +132,7 @@ func VPH_json2() {
 		vp_Fail("item exists")
 		return
 	}
-	if vp_Native() {
-		vp_Reach("end")
-		return
-	}
-	_, err := it.MarshalJSON()
-	vp_Assert(err == nil, "MarshalJSON ok")
-	st, ok := vp_LastJSON().(struct {
+	type v2item = struct {
 		Description       string  `json:"description"`
 		Value             uint64  `json:"value"`
 		Unit              string  `json:"unit"`
@@ -146,10 +141,27 @@ func VPH_json2() {
 		LevelOfConcern    float64 `json:"levelOfConcern"`
 		ObjectName        string  `json:"objectName,omitempty"`
 		ObjectDescription string  `json:"objectDescription,omitempty"`
-	})
-	vp_Assert(ok, "JSON v2 item has the documented keys")
-	if !ok {
+	}
+	doc, err := it.MarshalJSON()
+	vp_Assert(err == nil, "MarshalJSON succeeds for every value, saturated ones included")
+	if err != nil {
 		return
+	}
+	var st v2item
+	if vp_Native() {
+		// the real encoder ran: read the document back
+		if json.Unmarshal(doc, &st) != nil {
+			vp_Fail("JSON v2 item is a JSON object with the documented keys")
+			return
+		}
+	} else {
+		// the engine captured what was handed to encoding/json
+		var ok bool
+		st, ok = vp_LastJSON().(v2item)
+		vp_Assert(ok, "JSON v2 item has the documented keys")
+		if !ok {
+			return
+		}
 	}
 	want := spec.value(&hs)
 	vp_Assert(st.Value == want, "JSON v2 value = the counter (capacity when saturated)")
@@ -166,9 +178,9 @@ func VPH_table() {
 	var hs HistorySize
 	// the numeric side of "qualifies" is VPH_concern's subject; here the values
 	// are picked from a menu around their references and the threshold is free.
-	par := []uint32{0, 5, 10, 15}[vp_Choice("parents", 4)]     // reference 10
-	ent := []uint32{0, 999, 1000, 1999}[vp_Choice("entries", 4)] // reference 1000
-	lnk := []uint32{0, 25000, 49999, 1<<32 - 1}[vp_Choice("links", 4)] // reference 25e3; the last one is saturated
+	par := []uint32{0, 5, 10, 15, 350}[vp_Choice("parents", 5)]         // reference 10; the last one is 35 x the reference (beyond --critical)
+	ent := []uint32{0, 999, 1000, 1999, 45000}[vp_Choice("entries", 5)] // reference 1000; the last one is 45 x the reference
+	lnk := []uint32{0, 25000, 49999, 1<<32 - 1}[vp_Choice("links", 4)]  // reference 25e3; the last one is saturated
 	var rendered []uint64
 	if !vp_Native() {
 		// numerals are C12's subject; keep them out of the table text, but record what is rendered
